@@ -32,11 +32,17 @@ def runs(tier, seed):
         return [dict(n=3, dims=1, grid=4, kind="generic", depth=12, cap=None),
                 dict(n=4, dims=1, grid=3, kind="generic", depth=5, cap=None),
                 dict(n=4, dims=1, grid=3, kind="peaked", depth=6, cap=None, full_only=True),
-                dict(n=3, dims=2, grid=3, kind="seeded", depth=4, cap=None, outlier=0.2)]
+                dict(n=3, dims=2, grid=3, kind="seeded", depth=4, cap=None, outlier=0.2),
+                # duplicated mutations: byte-identical sibling vectors (memo keys must keep multiplicities apart)
+                dict(n=3, dims=1, grid=3, kind="dup", depth=5, cap=None),
+                dict(n=4, dims=1, grid=3, kind="dup", depth=5, cap=None, full_only=True)]
     return [dict(n=3, dims=1, grid=4, kind="generic", depth=12, cap=None),
             dict(n=3, dims=2, grid=3, kind="seeded", depth=12, cap=None, outlier=0.2),
             dict(n=4, dims=2, grid=3, kind="peaked", depth=6, cap=400000),
-            dict(n=4, dims=1, grid=4, kind="generic", depth=5, cap=None, outlier=0.2)]
+            dict(n=4, dims=1, grid=4, kind="generic", depth=5, cap=None, outlier=0.2),
+            dict(n=3, dims=1, grid=3, kind="dup", depth=12, cap=None),
+            dict(n=4, dims=1, grid=3, kind="dup", depth=6, cap=None, full_only=True),
+            dict(n=4, dims=1, grid=3, kind="generic", depth=7, cap=600000, full_only=True)]
 
 
 def run_one(chk, r, seed, pid="C06", make_inv=make_invariant, grammar_kw=None):
